@@ -394,14 +394,57 @@ def late_blob_check(ctx):
     return len(cases), nbad
 
 
+def nested_empty_check(ctx):
+    """a repository and the repositories nested in its directory, all emptied (removal of empty repositories on): one store-wide
+    pass removes them all, in whatever order the store lists them, and a second pass finds nothing to do"""
+    binp = api_binary(ctx)
+    rng = ctx.rng
+    cases = []
+    n = 3 if ctx.tier == "quick" else 12
+    for i in range(n):
+        names = [["a", "a/b"], ["a", "a/b", "a/b/c"], ["x/y", "x", "a"]][i % 3]
+        keep = "a" if i % 3 == 2 else None
+        steps = []
+        cfg = b"{}"
+        for r_ in names:
+            m = image_manifest(desc(MT_CFG, cfg), [], annotations={"nested": "%d-%s" % (i, r_)})
+            steps += [upload_post(r_, digest=dg("sha256", cfg), body=cfg), manifest_put(r_, "t1", m, ctype=MT_OCI_M)]
+            if r_ != keep:
+                steps += [manifest_delete(r_, "t1"), manifest_delete(r_, dg("sha256", m))]
+        for r_ in names:
+            steps.append(gcgen.age_step(r_, "", 7200))
+        steps.append(dict(kind="gcpass", impl=dict(op="gcpass", secs=0, partial=bool(i % 2)), model="(skip)"))
+        steps.append(dict(special("snapshot"), after_pass=1))
+        steps.append(dict(kind="gcpass", impl=dict(op="gcpass", secs=0, partial=bool(i % 2)), model="(skip)"))
+        steps.append(dict(special("snapshot"), after_pass=2))
+        for st in steps:
+            st["model"] = "(skip)"
+        cases.append(dict(id=945000 + i, conf=mkconf(store="dir", emptyrepo=True, untagged=True, grace_ms=-1), steps=steps, names=names, keep=keep))
+    iouts = run_api(ctx, binp, cases, name="nested")
+    nbad = 0
+    for c in cases:
+        io = iouts[c["id"]]["steps"]
+        snaps = {st["after_pass"]: sorted(f["path"] for f in (r.get("files") or [])) for st, r in zip(c["steps"], io) if st.get("after_pass")}
+        left = [r_ for r_ in c["names"] if r_ != c["keep"] and any(p == r_ + "/index.json" or p == r_ + "/oci-layout" or p.startswith(r_ + "/blobs") for p in snaps.get(1, []))]
+        if left or snaps.get(1) != snaps.get(2):
+            nbad += 1
+            ctx.violation("repositories %s, all emptied (one nested in the directory of the other): after one store-wide pass %s still %s there; %s"
+                          % ([r_ for r_ in c["names"] if r_ != c["keep"]], left or "none", "are" if len(left) != 1 else "is",
+                             "a second pass changed the directory: %s -> %s" % (snaps.get(1), snaps.get(2)) if snaps.get(1) != snaps.get(2) else "a second pass changed nothing"),
+                          dict(case=replayable(c), after_first=snaps.get(1), after_second=snaps.get(2)), "C06:nested-empty-repositories-need-two-passes")
+    return len(cases), nbad
+
+
 def run(ctx):
     res = {}
 
     def extra(cases, iouts):
         res["late"] = late_blob_check(ctx)
+        res["nested"] = nested_empty_check(ctx)
     _run(ctx, extra)
     if res:
         ctx.coverage["store_wide_pass_late_blob_cases"], ctx.coverage["late_blobs_never_collected"] = res["late"]
+        ctx.coverage["nested_empty_repository_cases"], ctx.coverage["nested_empty_left_after_one_pass"] = res["nested"]
 
 
 def _run(ctx, extra):
